@@ -115,7 +115,7 @@ func Load(repo string, extraOverlay map[string][]byte) (*World, error) {
 			imps = append(imps, i)
 		}
 		sort.Strings(imps)
-		src, err := GenClauses(idx.pkgName, imps, ok)
+		src, err := GenClauses(idx.pkgName, imps, ok, idx.paramTypes())
 		if err != nil {
 			return nil, err
 		}
